@@ -62,6 +62,8 @@ class Table:
         descr = dl[0]["value"] if dl else ""
         vtype = field = None
         has_default = has_implicit = multitoken = False
+        composing = False
+        other_modifiers = []
         default_text = None
         if len(args) == 4:
             for y in A.walk(args[2]):
@@ -82,10 +84,15 @@ class Table:
                         has_implicit = True
                     elif m == "multitoken":
                         multitoken = True
+                    elif m == "composing":
+                        composing = True
+                    elif m not in ("value",):
+                        other_modifiers.append(m)
             A.require(vtype is not None, "ProgramOptions: option %s has a semantic that is not po::value<T>(&field)" % name)
         self.options.append(Option(name=name, short=short, vtype=vtype, field=field, has_default=has_default,
                                    has_implicit=has_implicit, multitoken=multitoken, group=group, line=lit[0]["line"],
-                                   default_text=default_text, descr=descr))
+                                   default_text=default_text, descr=descr, composing=composing,
+                                   other_modifiers=other_modifiers))
 
     def members(self, group):
         """all options reachable from a group through .add()"""
@@ -108,3 +115,32 @@ class Table:
             seen.add(g)
             st += [c for p, c, l in self.adds if p == g]
         return seen
+
+
+def vm_mutations(prog):
+    """Every statement of ProgramOptions::parse that changes the variables map (`store(...)` or an assignment
+    through `_vm`), with the verdict whether a `notify(_vm)` follows on every path before parse() can return
+    true.  The saved .cfg is written from the map while the run uses the bound fields: they agree only if
+    every change of the map is notified."""
+    from . import flow as Fl
+    pf = prog.fn("vfps::ProgramOptions::parse")
+    g = Fl.CFG(pf)
+    is_notify = Fl.is_call_to("boost::program_options::notify")
+
+    def is_mut(n):
+        if n.get("k") == "CallExpr" and n.get("callee") == "boost::program_options::store":
+            return True
+        if n.get("k") in ("CXXOperatorCallExpr", "BinaryOperator") and n.get("op") == "=":
+            lhs = n["args"][0] if n["k"] == "CXXOperatorCallExpr" else n["c"][0]
+            return "_vm" in A.show(lhs)
+        if n.get("k") == "CXXMemberCallExpr" and not n.get("callee_const"):
+            o = A.call_object(n)
+            if o is not None and A.this_field(o) == "_vm" and (n.get("callee") or "").split("::")[-1] in ("erase", "clear", "insert", "emplace", "swap"):
+                return True
+        return False
+    ret_true = lambda n: n.get("k") == "ReturnStmt" and n.get("c") and A.strip(n["c"][0]).get("value") is True
+    out = []
+    for b, i, n in g.events(is_mut):
+        escapes = g.some_path_between((b, i), ret_true, avoid_pred=is_notify)
+        out.append((n, not escapes))
+    return pf, out
